@@ -281,7 +281,7 @@ inline Stats run_sharded(int nshards, const std::function<void(Worker &)> &body,
     total.add("worker_deaths");
     onCrash(ci, total);
     s.resume = ci.idx; s.restarts++; if (ci.how == "timeout") { s.timeouts++; total_timeouts++; }
-    if (total_timeouts > 10 || total.nviol > 400) {  // enough evidence: stop the whole level instead of waiting for every hanging / crashing case
+    if (total_timeouts > 5 || total.nviol > 400) {  // enough evidence: stop the whole level instead of waiting for every hanging / crashing case
       total.capped = true; total.add("level_abandoned_after_many_timeouts_or_crashes");
       s.pid = 0; for (auto &o : slots) if (o.pid) { kill(o.pid, SIGKILL); int st2; waitpid(o.pid, &st2, 0); Stats sv; sv.load(slurp(o.out + ".viol")); total.merge(sv); unlink((o.out + ".viol").c_str()); unlink(o.out.c_str()); unlink(o.err.c_str()); o.pid = 0; }
       live = 0; break;
